@@ -159,7 +159,8 @@ func (sr *SelectRelation) Materialize(aggRunner *AggRunner, catDir *catalog.Dire
 				}
 				// the literal may be in epoch seconds or nanoseconds
 				val = convertUnitToNanosec(val)
-				if sp.ContentsEnum.IsSet(INCLUSIVEMIN) {
+				// the pushed-down range is inclusive: an exclusive bound starts one nanosecond later
+				if !sp.ContentsEnum.IsSet(INCLUSIVEMIN) {
 					val += 1
 				}
 				q.SetStart(time.Unix(val/nanosec, val%nanosec))
@@ -171,7 +172,8 @@ func (sr *SelectRelation) Materialize(aggRunner *AggRunner, catDir *catalog.Dire
 				}
 				// the literal may be in epoch seconds or nanoseconds
 				val = convertUnitToNanosec(val)
-				if sp.ContentsEnum.IsSet(INCLUSIVEMAX) {
+				// the pushed-down range is inclusive: an exclusive bound ends one nanosecond earlier
+				if !sp.ContentsEnum.IsSet(INCLUSIVEMAX) {
 					val -= 1
 				}
 				q.SetEnd(time.Unix(val/nanosec, val%nanosec))
